@@ -91,7 +91,19 @@ func c17Scenario(p c17Params, idx int) *explore.Scenario {
 		content.WriteString(lines[n] + "\n")
 	}
 	path := fmt.Sprintf("%s/c17-%d-known_hosts", Scratch(), idx)
-	approve := strings.HasPrefix(p.Answer, "y") || strings.HasPrefix(p.Answer, "a") || strings.Contains(p.Answer, "\ny") || strings.Contains(p.Answer, "\na")
+	// the user approves iff the first line that is exactly one of the offered answers is y/yes/a/all
+	// (details = ask again; anything else, including an empty line, is not an answer: ask again)
+	approve := false
+	for _, l := range strings.Split(p.Answer, "\n") {
+		l = strings.TrimSpace(l)
+		if l == "y" || l == "yes" || l == "a" || l == "all" {
+			approve = true
+			break
+		}
+		if l == "n" || l == "no" {
+			break
+		}
+	}
 	sc := &explore.Scenario{Name: "c17", Params: p.String(), MaxSteps: 200000, Horizon: 5 * time.Minute}
 	sc.Run = func(cfg vrt.Config) (string, string, vrt.Result) {
 		var out, viol string
@@ -245,11 +257,11 @@ func c17ParamSets(tier string) (ps []c17Params) {
 		}
 	}
 	rec(nil)
-	answers := []string{"y\n", "n\n", "a\n", "d\ny\n", "bogus\nn\n", "yes\n", "no\n"}
+	answers := []string{"y\n", "n\n", "a\n", "d\ny\n", "bogus\nn\n", "yes\n", "no\n", "\nn\n", "ye\nn\n", "Y\nno\n", " \nn\n", "nope\nn\n"}
 	for _, f := range files {
 		for _, contact := range [][]int{{0}, {1}, {0, 1}} {
 			for ai, ans := range answers {
-				if tier == "quick" && len(f) == 2 && ai > 2 {
+				if tier == "quick" && len(f) == 2 && ai > 2 && ai != 7 {
 					continue
 				}
 				ps = append(ps, c17Params{File: f, Contact: contact, Answer: ans})
@@ -265,7 +277,7 @@ func init() {
 		ID:    "C17",
 		Level: "model_checking",
 		Rule: "known-hosts files = all sequences of <=2 (quick) / <=3 (thorough) lines over 10 line kinds (entry for A with the right key, with a changed key, entry for B, hashed entry, multi-host entry, IP entry, comment, blank, @revoked line, unrelated host); " +
-			"contacted servers {A}, {B}, {A,B} with their current keys; answers y / n / a / d+y / garbage+n / yes / no, and trust-all; the real Wrap() callbacks run as goroutines against the real PromptAddHosts loop (2 s batching timer in virtual time, scripted stdin), " +
+			"contacted servers {A}, {B}, {A,B} with their current keys; answers y / n / a / d+y / garbage+n / yes / no / empty line+n / 'ye'+n / 'Y'+no / blank+n / 'nope'+n, and trust-all; the real Wrap() callbacks run as goroutines against the real PromptAddHosts loop (2 s batching timer in virtual time, scripted stdin), " +
 			"all schedules with <=1 deviation; oracle: proceed <=> x/crypto knownhosts accepts the key OR the user approved OR trust-all; a refused host is reported untrusted; the file afterwards accepts every newly trusted host, keeps every unrelated old line byte-identical " +
 			"and in order, adds nothing else, and is unchanged when nobody was newly trusted",
 		Assumptions: []string{
